@@ -347,6 +347,15 @@ func oneCharNames(c *Ctx, f *core.Func, got map[rune]bool) {
 		}
 	}
 	c.regionNodes(f, func(g *core.Func, n ast.Node) bool {
+		// a lookup in a package-level table that is never written: its keys
+		if ix, ok := n.(*ast.IndexExpr); ok {
+			for _, k := range c.globalMapKeys(g.Info(), ix.X) {
+				if len(k) == 1 {
+					got[rune(k[0])] = true
+				}
+			}
+			return true
+		}
 		call, ok := n.(*ast.CallExpr)
 		if !ok || len(call.Args) != 2 {
 			return true
@@ -660,4 +669,51 @@ func ruleTB13() Rule {
 				}
 			}
 		}}
+}
+
+// globalMapKeys returns the constant string keys of the map literal a
+// package-level variable is initialised with, provided the variable is never
+// written (constantGlobal); nil otherwise.
+func (c *Ctx) globalMapKeys(info *types.Info, e ast.Expr) []string {
+	id, ok := ast.Unparen(e).(*ast.Ident)
+	if !ok {
+		return nil
+	}
+	v, ok := info.Uses[id].(*types.Var)
+	if !ok || v.Pkg() == nil || v.Parent() != v.Pkg().Scope() || !c.constantGlobal(v) {
+		return nil
+	}
+	if _, isMap := v.Type().Underlying().(*types.Map); !isMap {
+		return nil
+	}
+	var keys []string
+	for _, pk := range c.P.Pkgs {
+		if pk.Types != v.Pkg() {
+			continue
+		}
+		for _, file := range pk.Syntax {
+			ast.Inspect(file, func(n ast.Node) bool {
+				vs, ok := n.(*ast.ValueSpec)
+				if !ok {
+					return true
+				}
+				for i, nm := range vs.Names {
+					if pk.TypesInfo.Defs[nm] != types.Object(v) || i >= len(vs.Values) {
+						continue
+					}
+					if cl, ok := vs.Values[i].(*ast.CompositeLit); ok {
+						for _, el := range cl.Elts {
+							if kv, ok := el.(*ast.KeyValueExpr); ok {
+								if s, ok := constStr(pk.TypesInfo, kv.Key); ok {
+									keys = append(keys, s)
+								}
+							}
+						}
+					}
+				}
+				return false
+			})
+		}
+	}
+	return keys
 }
